@@ -11,7 +11,8 @@ comma separated code points, `-` = empty):
                                         repeat in a sequence; val = s<str> | i<int> | T | F | N
   class K <mro> <bases|-> <pmap|~> <wrappers|->
                                         class K(bases or MCallerHttp): [_HTTP_PREFIX_MAP = pmap]; wrappers
-                                        name=<comps>/name=<comps>…, comps = n | e | comp+comp…; each wrapper is
+                                        name=<comps>/name=<comps>=<inner>…, comps = n | e | comp+comp…; a wrapper with
+                                        <inner> is `def name(self, …): return self.<inner>(…)`; every other wrapper is
                                         `@method_http(None, comps) def name(self, …): self.get_conn().<verb>(path + "~<k>", …)`
                                         with k = number of the class (order of creation); mro = K.__mro__ as Python
                                         computes it (names, K first)
@@ -43,6 +44,7 @@ comma separated code points, `-` = empty):
   json value: tokens joined by `|`: N T F I<int> S<str> A<n> (n values follow) O<n> (n times K<key>, value); R = the
               response object (only in replies)
 
+  debuglog                              logging.getLogger('ak.conn_http') at DEBUG (NullHandler) until the end of the history
   lastid                                diagnostic (not part of the verdict): facts of the last request that belong to
                                         C16 or that the property does not spell out:
                                         `id=<number taken from the connection's counter|n> h=<g (generated)|s<value>|absent>
@@ -378,10 +380,15 @@ def parse_comps_tok(tok):
 
 
 def parse_wrappers(tok):
-    """[(method name, components)]"""
+    """[(method name, components, inner)]: inner = name of the wrapper the body calls instead of making the request
+    itself (`name=comps=inner`), or None"""
     if tok == "-":
         return []
-    return [(dec_str(w.split("=")[0]), parse_comps_tok(w.split("=")[1])) for w in tok.split("/")]
+    out = []
+    for w in tok.split("/"):
+        f = w.split("=")
+        out.append((dec_str(f[0]), parse_comps_tok(f[1]), dec_str(f[2]) if len(f) > 2 else None))
+    return out
 
 
 def parse_body(tok):
@@ -445,6 +452,21 @@ class Env:
         self.class_order = []     # names in the order of creation (the model's class references)
 
     # -- helpers
+    def debug_logging(self, on):
+        """the package's logger at DEBUG (records go nowhere): what is logged must not change what is sent"""
+        import logging
+        lg = logging.getLogger("ak.conn_http")
+        if on:
+            self.saved_logging = (lg.level, lg.propagate, list(lg.handlers))
+            lg.handlers[:] = [logging.NullHandler()]
+            lg.propagate = False
+            lg.setLevel(logging.DEBUG)
+        elif getattr(self, "saved_logging", None) is not None:
+            lg.setLevel(self.saved_logging[0])
+            lg.propagate = self.saved_logging[1]
+            lg.handlers[:] = self.saved_logging[2]
+            self.saved_logging = None
+
     def make_class(self, name, bases_tok, pmap_tok, wrappers_tok):
         """a subclass of MCallerHttp (or of earlier such classes) with wrappers `def m(self, fn)` declared with
         method_http(None, comps); a body calls fn(self.get_conn(), "~<number of its class>")"""
@@ -454,9 +476,12 @@ class Env:
         if pmap_tok != "~":
             body["_HTTP_PREFIX_MAP"] = parse_pairs(pmap_tok)
         idx = len(self.class_order)
-        for m, comps in parse_wrappers(wrappers_tok):
+        for m, comps, inner in parse_wrappers(wrappers_tok):
             ns = {}
-            exec("def %s(self, fn):\n    'http wrapper'\n    return fn(self.get_conn(), '~%d')\n" % (m, idx), ns)
+            if inner is None:
+                exec("def %s(self, fn):\n    'http wrapper'\n    return fn(self.get_conn(), '~%d')\n" % (m, idx), ns)
+            else:       # a wrapper that is implemented by another wrapper
+                exec("def %s(self, fn):\n    'http wrapper'\n    return self.%s(fn)\n" % (m, inner), ns)
             body[m] = mh.method_http(None, comps)(ns[m])
         cls = type(mh.MCallerHttp)("Caller%d" % idx, bases, body)
         self.classes[name] = cls
@@ -545,6 +570,9 @@ class Env:
         ch, mh = _mods()
         if op == "lastid":
             return self.last_id
+        if op == "debuglog":
+            self.debug_logging(True)
+            return "ok"
         if op == "list":
             self.lists[int(f[1])] = [make_adapter(d) for d in parse_adapters(f[2])]
         elif op == "lappend":
@@ -653,14 +681,17 @@ class _Patched:
 def impl(case):
     env = Env(case["lines"])
     out = []
-    with _Patched(env.captured, env.response):
-        for line in case["lines"]:
-            try:
-                out.append(env.exec(line))
-            except _BadOp:
-                out.append("bad-op")
-            except Exception as e:
-                out.append("err " + type(e).__name__)
+    try:
+        with _Patched(env.captured, env.response):
+            for line in case["lines"]:
+                try:
+                    out.append(env.exec(line))
+                except _BadOp:
+                    out.append("bad-op")
+                except Exception as e:
+                    out.append("err " + type(e).__name__)
+    finally:
+        env.debug_logging(False)
     return out
 
 
@@ -770,8 +801,9 @@ class ClassTable:
 
     def add(self, name, bases_tok, pmap_tok, wrappers_tok):
         bases = [int(b) for b in bases_tok.split(";")] if bases_tok != "-" else []
+        ws = parse_wrappers(wrappers_tok)
         self.decl[name] = {"bases": bases, "pmap": None if pmap_tok == "~" else parse_pairs(pmap_tok),
-                           "wrappers": dict(parse_wrappers(wrappers_tok))}
+                           "wrappers": {m: c for m, c, _ in ws}, "inner": {m: i for m, _, i in ws if i is not None}}
         self.order.append(name)
         sh = type("S%d" % name, tuple(self.shadow[b] for b in bases) or (object,), {})
         self.shadow[name] = sh
@@ -780,12 +812,23 @@ class ClassTable:
     def mro(self, name):
         return [self.back[c] for c in self.shadow[name].__mro__ if c in self.back]
 
+    def executing(self, name, method):
+        """(name, class) of the wrapper that makes the request: bodies that only call another wrapper hand over"""
+        for _ in range(16):
+            for c in self.mro(name):
+                if method in self.decl[c]["wrappers"]:
+                    break
+            else:
+                raise KeyError(method)
+            if method not in self.decl[c]["inner"]:
+                return method, c
+            method = self.decl[c]["inner"][method]
+        raise KeyError("delegation cycle")
+
     def wrapper(self, name, method):
-        """(components, creation index of the class whose body runs)"""
-        for c in self.mro(name):
-            if method in self.decl[c]["wrappers"]:
-                return self.decl[c]["wrappers"][method], self.order.index(c)
-        raise KeyError(method)
+        """(components of the wrapper that makes the request, creation index of the class whose body that is)"""
+        m, c = self.executing(name, method)
+        return self.decl[c]["wrappers"][m], self.order.index(c)
 
     def methods(self, name):
         return sorted({m for c in self.mro(name) for m in self.decl[c]["wrappers"]})
@@ -798,6 +841,7 @@ class ClassTable:
 
     def code_comps(self, name, method):
         """the components in the package's table: the wrapper found first direct base first, depth first"""
+        method = self.executing(name, method)[0]
         return self.decl[self.dfs_wrapper_class(name, method)]["wrappers"][method]
 
     def agrees(self, name, method):
@@ -989,8 +1033,8 @@ def oracle(case, replies):
     for idx, (line, rep) in enumerate(zip(lines, replies)):
         f = line.split()
         op = f[0]
-        if op == "lastid":
-            continue          # request ids are C16's property: diagnostic line
+        if op in ("lastid", "debuglog"):
+            continue          # request ids are C16's property: diagnostic line; logging level: no effect allowed
         if rep.startswith("crash") or rep == "bad-op":
             return "harness: " + rep
         if op in ("req", "call"):
@@ -1118,9 +1162,11 @@ def oracle(case, replies):
                 touched = {n for n in touched if _uses_list(nodes.get(n), int(f[1]))}
             for name, before in last.items():
                 if name in now and name not in touched and now[name] != before:
+                    env.debug_logging(False)
                     return "frame: '%s' changed the request sent through connection %d: %r -> %r" % (
                         line.split()[0], name, before, now[name])
             last = now
+    env.debug_logging(False)
     return None
 
 
@@ -1194,7 +1240,14 @@ def enc_comps(comps):
 
 
 def enc_wrappers(ws):
-    return "/".join("%s=%s" % (enc_str(m), enc_comps(c)) for m, c in ws.items()) if ws else "-"
+    """ws: {name: comps} or {name: (comps, inner)}"""
+    out = []
+    for m, c in ws.items():
+        if isinstance(c, tuple):
+            out.append("%s=%s=%s" % (enc_str(m), enc_comps(c[0]), enc_str(c[1])))
+        else:
+            out.append("%s=%s" % (enc_str(m), enc_comps(c)))
+    return "/".join(out) if out else "-"
 
 
 def enc_body(b):
@@ -1337,12 +1390,27 @@ class Builder:
         if r < 0.55:
             pm = rng.choice(PMAPS)
             self.kinds.add("class:single")
-            return [self.new_class([], pm, {"m%d" % i: self.comps_for(pm) for i in range(rng.choice([2, 3, 4]))})]
+            ws = {"m%d" % i: self.comps_for(pm) for i in range(rng.choice([2, 3, 4]))}
+            if rng.random() < 0.35:
+                # a wrapper implemented by another wrapper of (usually) another component, defined before / after it
+                self.kinds.add("class:nested-call")
+                outer = {"d0": (self.comps_for(pm), rng.choice(sorted(ws)))}
+                if rng.random() < 0.4:
+                    outer["d1"] = (self.comps_for(pm), "d0")
+                ws = dict(outer, **ws) if rng.random() < 0.5 else dict(ws, **outer)
+            return [self.new_class([], pm, ws)]
         if r < 0.68:
             pm = rng.choice(PMAPS[:2])
-            base = self.new_class([], pm, {"m0": self.comps_for(pm), "m1": self.comps_for(pm)})
-            sub = self.new_class([base], rng.choice([None, None, {"A": "/sub", "B": "/subB"}]),
-                                 {"m0": self.comps_for(pm), "m2": self.comps_for(pm)})
+            bw = {"m0": self.comps_for(pm), "m1": self.comps_for(pm)}
+            sw = {"m0": self.comps_for(pm), "m2": self.comps_for(pm)}
+            if rng.random() < 0.5:
+                self.kinds.add("class:nested-call")
+                if rng.random() < 0.5:
+                    bw = dict({"d0": (self.comps_for(pm), "m0")}, **bw)     # the inner wrapper is overridden in the subclass
+                else:
+                    sw = dict(sw, d1=(self.comps_for(pm), "m1"))             # the inner wrapper lives in the base
+            base = self.new_class([], pm, bw)
+            sub = self.new_class([base], rng.choice([None, None, {"A": "/sub", "B": "/subB"}]), sw)
             self.kinds.add("class:chain")
             return [base, sub]
         pm = {"front": "/front/api", "back": "/back", "common": "/common/"}
@@ -1524,6 +1592,10 @@ class Builder:
 
 def gen_one(rng, steps, rich):
     b = Builder(rng, rich)
+    if rng.random() < 0.2:
+        # the package's logger at DEBUG for the whole history (what is logged must not change what is sent)
+        b.lines.append("debuglog")
+        b.kinds.add("debuglog")
     for _ in range(steps):
         b.step()
     # every history ends with requests through what it built
@@ -1571,6 +1643,16 @@ def _corpus():
                    "req 1 get %s 2 n n E 0" % e("/res"), "req 1 get %s 3 n n E 0" % e("/res"),
                    "req 1 get %s 4 n n E 0" % e("/res"), "req 1 post %s 5 n n E 0" % e("/res"),
                    "req 1 get %s 2 n n E 0" % e("/res")]},
+        # a wrapper whose body calls another wrapper of a different component (inner defined after / before it, and
+        # overridden in a subclass); the same history with the package's logger at DEBUG and an auth layer
+        {"lines": ["debuglog", "class 1 1 - %s=%s;%s=%s %s=%s=%s/%s=%s/%s=%s=%s" % (
+                       e("front"), e("/front"), e("back"), e("/back"), e("outer"), e("back"), e("inner"),
+                       e("inner"), e("front"), e("late"), e("back"), e("inner")),
+                   "class 2 2;1 1 ~ %s=%s" % (e("inner"), e("back")),
+                   "mk 3 s=%s o=b/%s/%s B" % (e("http://h"), e("u"), e("p")),
+                   "caller 4 c=3 1", "caller 5 c=3 2",
+                   "call 4 %s get %s n n n E 0" % (e("outer"), e("/x")), "call 4 %s get %s n n n E 0" % (e("late"), e("/x")),
+                   "call 5 %s get %s n n n E 0" % (e("outer"), e("/x")), "call 4 %s get %s n n n E 0" % (e("inner"), e("/x"))]},
         # mix-ins with a same-named wrapper bound to different components; diamond where one branch overrides
         {"lines": ["class 1 1 - ~ %s=%s" % (e("status"), e("front")), "class 2 2 - ~ %s=%s" % (e("status"), e("back")),
                    "class 3 3;1;2 1;2 %s=%s;%s=%s -" % (e("front"), e("/front/api"), e("back"), e("/back")),
@@ -1753,7 +1835,8 @@ RULE = ("operation histories (3-10 steps, every tenth 10-24) over HttpConn / BAu
         "str / list / dict addresses, prefix / auth / tracing adapters and response processors with real transformations "
         "(unwrap, len, filter, nullify, raising) given singly or as (re-used, later mutated) lists, add_adapter on any "
         "layer, MCallerHttp subclasses (single, chains that override wrappers / the prefix map, mix-ins and diamonds with "
-        "same-named wrappers bound to different components), clone with nothing / one adapter / a list, component calls "
+        "same-named wrappers bound to different components, wrappers whose body calls another wrapper), a fifth of the "
+        "histories with the package's logger at DEBUG, clone with nothing / one adapter / a list, component calls "
         "through the prefix cache, params as str dicts / dicts with non-str values / lists and tuples of pairs with repeated "
         "keys, requests with every verb and raw do_request methods, str / bytes / json bodies, caller header and "
         "parameter dicts (re-used between requests), response bodies that make processors return empty / falsy values, "
@@ -1774,11 +1857,11 @@ ASSUMPTIONS = ["header names and methods are ASCII (str.upper/lower/capitalize m
 THEOREMS = [
     "C17.reachable_inv", "C17.view_defined", "C17.request_uses_chain", "C17.derive_chain", "C17.base_chain",
     "C17.add_chain", "C17.chain_once", "C17.prefix_outermost", "C17.prefix_join", "C17.auth_once", "C17.auth_none",
-    "C17.auth_accepts", "C17.auth_refused", "C17.auth_decodes", "C17.auth_decodes_b64", "C17.literals", "C17.url", "C17.url_one_slash",
-    "C17.params_all_pairs", "C17.method", "C17.body", "C17.dumps_shape", "C17.response_chain",
+    "C17.auth_accepts", "C17.auth_refused", "C17.auth_decodes", "C17.auth_decodes_b64", "C17.literals", "C17.url",
+    "C17.url_one_slash", "C17.params_all_pairs", "C17.method", "C17.body", "C17.dumps_shape", "C17.response_chain",
     "C17.request_response", "C17.exception_propagates", "C17.frame", "C17.frame_reachable", "C17.chain_stable",
     "C17.caller_unchanged", "C17.clone_list", "C17.get_conn_cached", "C17.get_conn_first", "C17.call_component",
-    "C17.metas_first_base", "C17.caller_pmap",
+    "C17.nested_call_innermost", "C17.metas_first_base", "C17.caller_pmap",
 ]
 
 LEVEL_TEXT = ("Kernel-checked for all heaps/histories/arguments on a heap model of conn_http/mcaller_http (explicit "
